@@ -9,6 +9,7 @@ import BorshModel.Io
 import BorshModel.IoOps
 import BorshModel.ArrayGuard
 import BorshModel.ValidateSpec
+import BorshModel.SchemaWalk
 open Borsh Driver
 
 def strict? : Sx → Option Bool
@@ -352,6 +353,20 @@ def runCase (xs : List Sx) : String :=
         | some c => checkValidateAgainstSpec c tok
         | none => "bad-case container-shape"
       | _ => "ok"
+    | _, _ => "bad-case parse"
+  | [.atom "sdec", cb, eb] =>
+    -- the schema-only reader of the specification (`sdec`) on a container and an encoding
+    match bytes? cb, bytes? eb with
+    | some cbs, some ebs =>
+      match fromSlice false containerTy cbs with
+      | .ok v =>
+        match containerOfVal v with
+        | some c =>
+          match sdec c 66 c.decl ebs with
+          | some rest => "ok rest=" ++ toString rest.length
+          | none => "fail"
+        | none => "bad-case container-shape"
+      | _ => "bad-case container-bytes"
     | _, _ => "bad-case parse"
   | [.atom "schema", t] =>
     match ty? t with
